@@ -141,12 +141,17 @@ def stored(b):
     return out
 
 
-def srv(size, up_since=1):
-    return {'memory': '%dM' % size, 'cpu': '%d%%' % size, 'disk': '%dM' % size, 'parent': 'rack:r1', 'up_since': up_since}
+def srv(size, up_since=1, traits=None):
+    d = {'memory': '%dM' % size, 'cpu': '%d%%' % size, 'disk': '%dM' % size, 'parent': 'rack:r1', 'up_since': up_since}
+    if traits:
+        d['traits'] = list(traits)      # reported by the node, not necessarily listed under /traits
+    return d
 
 
-def app(size, prio, lease=None, group=None, once=False):
+def app(size, prio, lease=None, group=None, once=False, traits=None):
     d = {'memory': '%dM' % size, 'cpu': '%d%%' % size, 'disk': '%dM' % size, 'priority': prio, 'affinity': 'aff'}
+    if traits:
+        d['traits'] = list(traits)
     if lease:
         d['lease'] = lease
     if group:
@@ -268,8 +273,9 @@ def run(case, want=None):
     b.world_put(z.path.bucket('pod:p1'), {'parent': None})
     b.world_put(z.path.bucket('rack:r1'), {'parent': 'pod:p1'})
     b.world_put(z.CELL + '/pod:p1', None)
+    b.world_put(z.path.traits(), ['ssd'])          # cell-wide trait list; servers may report traits that are not in it
     for s, size in case['servers']:
-        b.world_put(z.path.server(s), srv(size))
+        b.world_put(z.path.server(s), srv(size, traits=case.get('server_traits', {}).get(s)))
         b.world_put(z.path.server_presence(s), {})
     for g, n in case.get('groups', []):
         b.world_put(z.path.identity_group(g), {'count': n})
@@ -298,11 +304,23 @@ def run(case, want=None):
                 b.world_recreate(z.path.server_presence(op[1]), {})
                 m.process_server_presence(b.list(z.SERVER_PRESENCE))
             elif kind == 'resize':
-                b.world_put(z.path.server(op[1]), srv(op[2]))
+                b.world_put(z.path.server(op[1]), srv(op[2], traits=case.get('server_traits', {}).get(op[1])))
                 m.reload_servers([op[1]])
+            elif kind == 'inject_dup':
+                # a second record of a placed instance under another server (what an interrupted publication of an
+                # older master, or the listed known finding, can leave behind); seen by the next fail-over
+                st = stored(b)
+                placed = sorted(a for a, ss in st.items() if len(ss) == 1)
+                if placed:
+                    a = placed[op[1] % len(placed)]
+                    src = st[a][0]
+                    others = [x for x, _ in case['servers'] if x != src and z.path.server(x) in b.nodes]
+                    if others:
+                        t = others[op[2] % len(others)]
+                        b.world_put(z.path.placement(t, a), b.get(z.path.placement(src, a)))
             elif kind == 'resize_quiet':
                 # the node re-registers with another capacity while no master is listening (seen by the next fail-over)
-                b.world_put(z.path.server(op[1]), srv(op[2]))
+                b.world_put(z.path.server(op[1]), srv(op[2], traits=case.get('server_traits', {}).get(op[1])))
             elif kind == 'rmserver':
                 b.world_delete(z.path.server(op[1]))
                 b.world_delete(z.path.server_presence(op[1]))
@@ -371,12 +389,13 @@ def rand_case(rng):
     nsrv = rng.randint(2, 4)
     servers = [('s%d' % i, rng.choice([4, 8, 12, 16])) for i in range(1, nsrv + 1)]
     groups = [('proid.g', rng.randint(1, 3))] if rng.random() < 0.4 else []
+    server_traits = {s: ['gpu'] for s, _ in servers if rng.random() < 0.3}
     names = ['proid.a%d#%010d' % (i, i) for i in range(1, 8)]
     apps = []
     for a in names[:rng.randint(1, 5)]:
         apps.append((a, app(rng.choice([2, 3, 5, 6]), rng.choice([1, 10, 50, 100]),
                             lease=rng.choice([None, None, '1d']), group=('proid.g' if groups and rng.random() < 0.5 else None),
-                            once=rng.random() < 0.1)))
+                            once=rng.random() < 0.1, traits=(['gpu'] if server_traits and rng.random() < 0.3 else None))))
     ops = []
     free = [a for a in names if a not in [x[0] for x in apps]]
     for _ in range(rng.randint(2, 8)):
@@ -385,7 +404,8 @@ def rand_case(rng):
         if c < 0.18 and free:
             a = free.pop(0)
             ops.append(['schedule', a, app(rng.choice([2, 3, 5, 6]), rng.choice([1, 10, 50, 100]),
-                                          group=('proid.g' if groups and rng.random() < 0.5 else None))])
+                                          group=('proid.g' if groups and rng.random() < 0.5 else None),
+                                          traits=(['gpu'] if server_traits and rng.random() < 0.4 else None))])
         elif c < 0.28 and apps:
             ops.append(['delete', rng.choice(apps)[0]])
         elif c < 0.40:
@@ -400,6 +420,9 @@ def rand_case(rng):
             ops.append(['restart', rng.choice([None, None, 0, 1, 2])])
         elif c < 0.62 and case_allows_rm():
             ops.append(['rmserver', s])
+        elif c < 0.65:
+            ops.append(['inject_dup', rng.randint(0, 5), rng.randint(0, 3)])
+            ops.append(['restart', rng.choice([None, None, 0, 1, 2])])
         elif c < 0.68 and groups:
             ops.append(['group', 'proid.g', rng.randint(1, 3)])
         elif c < 0.90:
@@ -407,7 +430,7 @@ def rand_case(rng):
         else:
             ops.append(['restart', rng.choice([None, None, 0, 1, 2, 3])])
     ops.append(['cycle', None])
-    return {'servers': servers, 'groups': groups, 'apps': apps, 'ops': ops}
+    return {'servers': servers, 'server_traits': server_traits, 'groups': groups, 'apps': apps, 'ops': ops}
 
 
 def case_allows_rm():
